@@ -461,7 +461,7 @@ def rule_regex(ctx: Ctx) -> RuleReport:
     from sa.engine.redos import Undecided, exponential_ambiguity, polynomial_ambiguity
     from sa.rules.c01 import _RE_FUNCS, _pattern_of
 
-    rep = RuleReport("C12-REGEX", "patterns that scan the whole input (the mailbox separator) have no two adjacent repeats that can share a run of characters (IDA on the pattern's automaton: such a pattern needs quadratic time on a long failing line)")
+    rep = RuleReport("C12-REGEX", "patterns that scan the whole input (the mailbox separator, the RTF reader's document-level patterns) have no two adjacent repeats that can share a run of characters (IDA on the pattern's automaton: such a pattern needs quadratic time on a long failing line)")
     for rel, const in WHOLE_INPUT_PATTERNS:
         m_ = ctx.p.module(rel)
         node = m_.assigns.get(const)
@@ -485,6 +485,82 @@ def rule_regex(ctx: Ctx) -> RuleReport:
             rep.ok({"pattern": const, "text": text[:70], "ambiguity": "none"})
         else:
             rep.fail(Finding("C12-REGEX", rel, const, "ambiguous: " + text[:100], f"the pattern `{text[:80]}` is run over the whole input and {w}: a line of n characters after 'From ' costs n^2 steps (seconds for 20 000 characters, hours for a megabyte)", line=node.lineno))
+    # RTF: every compiled pattern of the reader that is applied (search / finditer / sub) to the text of the whole document. The
+    # patterns are discovered from the call sites: receiver = a module-level pattern (or the loop variable over a module-level
+    # list / dict of patterns), subject = the `text` parameter of a parser method or a local computed from it by .sub()
+    RTF_ = X + "ms_legacy/rtf_extractor.py"
+    rm = ctx.p.module(RTF_)
+
+    def _compiled(node):
+        return isinstance(node, ast.Call) and (dotted(node.func) or "") == "re.compile" and node.args
+
+    consts: dict[str, list] = {}
+    for name, node in rm.assigns.items():
+        if _compiled(node):
+            consts[name] = [node]
+        elif isinstance(node, (ast.List, ast.Tuple)) and node.elts and all(_compiled(e) for e in node.elts):
+            consts[name] = list(node.elts)
+        elif isinstance(node, ast.DictComp) and _compiled(node.value):
+            consts[name] = [node.value]
+    judged: dict[str, list] = {}
+    for fi in rm.functions.values():
+        params = {a.arg for a in fi.node.args.args}
+        if "text" not in params:
+            continue
+        whole = {"text"}
+        changed = True
+        while changed:
+            changed = False
+            for a in walk_own(fi.node):
+                if isinstance(a, ast.Assign) and len(a.targets) == 1 and isinstance(a.targets[0], ast.Name) and a.targets[0].id not in whole:
+                    v = a.value
+                    if isinstance(v, ast.Name) and v.id in whole:
+                        whole.add(a.targets[0].id); changed = True
+                    elif isinstance(v, ast.Call) and isinstance(v.func, ast.Attribute) and v.func.attr == "sub" and len(v.args) >= 2 and isinstance(v.args[1], ast.Name) and v.args[1].id in whole:
+                        whole.add(a.targets[0].id); changed = True
+        loopvars = {}
+        for l in walk_own(fi.node):
+            if isinstance(l, ast.For):
+                it = l.iter
+                base = it.func.value if isinstance(it, ast.Call) and isinstance(it.func, ast.Attribute) and it.func.attr in ("items", "values") else it
+                if isinstance(base, ast.Name) and base.id in consts:
+                    for t in ast.walk(l.target):
+                        if isinstance(t, ast.Name):
+                            loopvars[t.id] = base.id
+        for c in calls_in(fi):
+            if not (isinstance(c.func, ast.Attribute) and c.func.attr in ("search", "finditer", "sub", "subn", "findall", "match") and isinstance(c.func.value, ast.Name)):
+                continue
+            rn = c.func.value.id
+            cname = rn if rn in consts else loopvars.get(rn)
+            if cname is None:
+                continue
+            subj = c.args[1] if c.func.attr in ("sub", "subn") and len(c.args) > 1 else (c.args[0] if c.args else None)
+            if isinstance(subj, ast.Name) and subj.id in whole:
+                judged.setdefault(cname, []).append(f"{fi.qual}: {short(c, 40)}")
+    if len(judged) < 10:
+        raise AnalysisError(f"C12-REGEX: only {len(judged)} RTF patterns applied to the whole document were recognised (10 confirmed)")
+    for cname, sites in sorted(judged.items()):
+        for k, node in enumerate(consts[cname]):
+            got = _pattern_of(ctx, rm, node.args[0])
+            if not got:
+                raise AnalysisError(f"C12-REGEX: the pattern of {cname} is not a constant")
+            fl = 0
+            for a in list(node.args[1:]) + [k_.value for k_ in node.keywords]:
+                for x in ast.walk(a):
+                    if isinstance(x, ast.Attribute) and isinstance(x.value, ast.Name) and x.value.id == "re" and isinstance(getattr(_re, x.attr, None), _re.RegexFlag):
+                        fl |= getattr(_re, x.attr)
+            label = cname if len(consts[cname]) == 1 else f"{cname}[{k}]"
+            rep.unit(f"{RTF_}::{label}")
+            text = got[0] if isinstance(got[0], str) else got[0].decode("latin-1")
+            try:
+                w = exponential_ambiguity(got[0], int(fl)) or polynomial_ambiguity(got[0], int(fl))
+            except Undecided as exc:
+                rep.fail(Finding("C12-REGEX", RTF_, label, "undecided: " + text[:100], f"the pattern `{text[:80]}` is run over the whole document and is too large to be decided ({exc}); split it or simplify it", line=node.lineno))
+                continue
+            if w is None:
+                rep.ok({"pattern": label, "applied_in": sites[:2], "ambiguity": "none"})
+            else:
+                rep.fail(Finding("C12-REGEX", RTF_, label, "ambiguous: " + text[:100], f"the pattern `{text[:80]}` is run over the whole document ({sites[0]}) and {w}: an unclosed group or a long run of blanks costs quadratic or cubic time (24 KB of '\\field{{\\fldinst{{' took 97 s)", line=node.lineno))
     # the other patterns of the library: counted, not judged (they run on fields or on documents whose size the guards bound)
     n_poly = 0
     for m_ in ctx.p.modules.values():
